@@ -71,6 +71,11 @@ Theorem C03_parse_fuel_adequate : forall s, parse s <> OutOfFuel.
 Proof. exact parse_fuel_adequate. Qed.
 Print Assumptions C03_parse_fuel_adequate.
 
+(* ... and any larger fuel gives the same answer as the fuel the entry point passes *)
+Theorem C03_parse_fuel_mono : forall s f, (S (length s) <= f)%nat -> p_chain f s = p_chain (S (length s)) s.
+Proof. exact p_chain_fuel_mono. Qed.
+Print Assumptions C03_parse_fuel_mono.
+
 (* ---- non-vacuity and the rejection classes on concrete scripts ---- *)
 Example C03_accepts :
   match load_m $"_10 = 2*1
